@@ -4,7 +4,7 @@
 (*   C06  Output(shift(g, k, n)) = shift(Output(g), k, n)   for k, n in 0..2                *)
 (*   C10  Output(a | b) = Output(a) (+) shift(Output(b))    for all pairs of small grids     *)
 (*   C17  the row splitter gives the same rows for LF / CRLF / trailing blanks              *)
-EXTENDS Bridge, Relations
+EXTENDS BridgeP, Relations
 CONSTANTS W, H, Alphabet
 
 Grids == [1..H -> [1..W -> Alphabet]]
